@@ -87,7 +87,8 @@ Proof. vm_compute. reflexivity. Qed.
 (* ------------------------------------------------------------------------------------------------------
    Added in build session 4 (statements re-stated from the proof files by harness tooling; each is closed by
    exact). *)
-From SplipyModel Require Import Model.Catalogue Proofs.CatalogueProofs.
+From Coquelicot Require Import Coquelicot.
+From SplipyModel Require Import Model.Catalogue Proofs.CatalogueProofs Model.Orient Model.Handed Proofs.HandedProofs.
 Theorem C17_add_idempotent :
   forall (c : catalogue) (p : patch), valid_patch p -> cat_add (cat_add c p) p = cat_add c p.
 Proof. exact @add_idempotent. Qed.
@@ -105,7 +106,7 @@ Print Assumptions C17_lookup_after_add.
 
 Theorem C17_nodes_are_cells :
   forall ps : list patch,
-         Forall valid_patch ps ->
+         List.Forall valid_patch ps ->
          let c := cat_add_all cat_empty ps in
          NoDup (cat_keys c) /\
          (forall k : key, In k (cat_keys c) <-> In k (flat_map all_subkeys ps)) /\
@@ -118,7 +119,7 @@ Print Assumptions C17_nodes_are_cells.
 Theorem C17_order_independent :
   forall ps ps' : list patch,
          Permutation.Permutation ps ps' ->
-         Forall valid_patch ps ->
+         List.Forall valid_patch ps ->
          let c := cat_add_all cat_empty ps in
          let c' := cat_add_all cat_empty ps' in
          (forall k : key, In k (cat_keys c) <-> In k (cat_keys c')) /\
@@ -149,7 +150,7 @@ Print Assumptions C17_reoriented_copy_known.
 
 Theorem C17_order_orientation_independent :
   forall ps qs ps' : list patch,
-         Forall valid_patch ps ->
+         List.Forall valid_patch ps ->
          Forall2 reoriented ps qs ->
          Permutation.Permutation qs ps' ->
          let c := cat_add_all cat_empty ps in
@@ -162,13 +163,13 @@ Print Assumptions C17_order_orientation_independent.
 
 Theorem C17_graph_invariants :
   forall ps : list patch,
-         Forall valid_patch ps -> let c := cat_add_all cat_empty ps in graph_ok c /\ prov (from_patches ps) c.
+         List.Forall valid_patch ps -> let c := cat_add_all cat_empty ps in graph_ok c /\ prov (from_patches ps) c.
 Proof. exact @graph_invariants. Qed.
 Print Assumptions C17_graph_invariants.
 
 Theorem C17_higher_neighbours :
   forall (ps : list patch) (D : nat),
-         Forall valid_patch ps ->
+         List.Forall valid_patch ps ->
          (forall p : patch, In p ps -> p_dim p = S D) ->
          same_faces ps ->
          forall n : node,
@@ -181,7 +182,7 @@ Print Assumptions C17_higher_neighbours.
 
 Theorem C17_boundary_spec :
   forall (ps : list patch) (D : nat),
-         Forall valid_patch ps ->
+         List.Forall valid_patch ps ->
          (forall p : patch, In p ps -> p_dim p = S D) ->
          same_faces ps ->
          (forall p : patch, In p ps -> NoDup (face_keys p)) ->
@@ -218,4 +219,244 @@ Theorem C17_lattice3_counts :
          length (cat_nodes c 3) = nx * ny * nz.
 Proof. exact @lattice3_counts. Qed.
 Print Assumptions C17_lattice3_counts.
+
+Theorem C17_triple3_oapply :
+  forall (o : orient) (du dv dw : list Rdefinitions.RbaseSymbolsImpl.R),
+         In o A3 ->
+         let ds := oapply o [du; dv; dw] in
+         triple3 (nth 0 ds []) (nth 1 ds []) (nth 2 ds []) =
+         Rdefinitions.RbaseSymbolsImpl.Rmult (osign o) (triple3 du dv dw).
+Proof. exact @triple3_oapply. Qed.
+Print Assumptions C17_triple3_oapply.
+
+Theorem C17_cross2_oapply :
+  forall (o : orient) (du dv : list Rdefinitions.RbaseSymbolsImpl.R),
+         In o A2 ->
+         let ds := oapply o [du; dv] in
+         cross2 (nth 0 ds []) (nth 1 ds []) = Rdefinitions.RbaseSymbolsImpl.Rmult (osign o) (cross2 du dv).
+Proof. exact @cross2_oapply. Qed.
+Print Assumptions C17_cross2_oapply.
+
+Theorem C17_oparity_compose :
+  forall (n : nat) (a b : orient),
+         n = 2 \/ n = 3 ->
+         signed_perm n a ->
+         signed_perm n b -> signed_perm n (ocompose a b) /\ oparity (ocompose a b) = xorb (oparity a) (oparity b).
+Proof. exact @oparity_compose. Qed.
+Print Assumptions C17_oparity_compose.
+
+Theorem C17_oapply_compose :
+  forall (n : nat) (l r : orient) (ds : list (list Rdefinitions.RbaseSymbolsImpl.R)),
+         wf_orient n l -> wf_orient n r -> oapply (ocompose l r) ds = oapply l (oapply r ds).
+Proof. exact @oapply_compose. Qed.
+Print Assumptions C17_oapply_compose.
+
+Theorem C17_steps_orient_parity3 :
+  forall w : list rstep,
+         List.Forall (valid_step 3) w -> In (steps_orient 3 w) A3 /\ oparity (steps_orient 3 w) = Nat.odd (length w).
+Proof. exact @steps_orient_parity3. Qed.
+Print Assumptions C17_steps_orient_parity3.
+
+Theorem C17_steps_apply_oapply3 :
+  forall w : list rstep,
+         List.Forall (valid_step 3) w ->
+         forall ds : list (list Rdefinitions.RbaseSymbolsImpl.R),
+         length ds = 3 -> steps_apply w ds = oapply (steps_orient 3 w) ds.
+Proof. exact @steps_apply_oapply3. Qed.
+Print Assumptions C17_steps_apply_oapply3.
+
+Theorem C17_reorient_steps_apply3 :
+  forall (o : orient) (du dv dw : list Rdefinitions.RbaseSymbolsImpl.R),
+         In o A3 ->
+         steps_apply (reorient_steps o) [du; dv; dw] = oapply o [du; dv; dw] /\
+         oparity o = Nat.odd (length (reorient_steps o)).
+Proof. exact @reorient_steps_apply3. Qed.
+Print Assumptions C17_reorient_steps_apply3.
+
+Theorem C17_rh_value3_eq :
+  forall du dv dw : list Rdefinitions.RbaseSymbolsImpl.R,
+         Rdefinitions.RbaseSymbolsImpl.Rlt (Rdefinitions.IZR 0) (dot3 du du) ->
+         Rdefinitions.RbaseSymbolsImpl.Rlt (Rdefinitions.IZR 0) (dot3 dv dv) ->
+         Rdefinitions.RbaseSymbolsImpl.Rlt (Rdefinitions.IZR 0) (dot3 dw dw) ->
+         rh_value3 du dv dw =
+         Rdefinitions.Rdiv (triple3 du dv dw)
+           (Rdefinitions.RbaseSymbolsImpl.Rmult (Rdefinitions.RbaseSymbolsImpl.Rmult (norm3 du) (norm3 dv)) (norm3 dw)).
+Proof. exact @rh_value3_eq. Qed.
+Print Assumptions C17_rh_value3_eq.
+
+Theorem C17_rh_value3_bound :
+  forall du dv dw : list Rdefinitions.RbaseSymbolsImpl.R,
+         Rdefinitions.RbaseSymbolsImpl.Rlt (Rdefinitions.IZR 0) (dot3 du du) ->
+         Rdefinitions.RbaseSymbolsImpl.Rlt (Rdefinitions.IZR 0) (dot3 dv dv) ->
+         Rdefinitions.RbaseSymbolsImpl.Rlt (Rdefinitions.IZR 0) (dot3 dw dw) ->
+         Rdefinitions.Rle (Rdefinitions.IZR (-1)) (rh_value3 du dv dw) /\
+         Rdefinitions.Rle (rh_value3 du dv dw) (Rdefinitions.IZR 1).
+Proof. exact @rh_value3_bound. Qed.
+Print Assumptions C17_rh_value3_bound.
+
+Theorem C17_right_hand3_spec :
+  forall (tol : Rdefinitions.RbaseSymbolsImpl.R) (du dv dw : list Rdefinitions.RbaseSymbolsImpl.R),
+         Rdefinitions.RbaseSymbolsImpl.Rlt (Rdefinitions.IZR 0) (dot3 du du) ->
+         Rdefinitions.RbaseSymbolsImpl.Rlt (Rdefinitions.IZR 0) (dot3 dv dv) ->
+         Rdefinitions.RbaseSymbolsImpl.Rlt (Rdefinitions.IZR 0) (dot3 dw dw) ->
+         right_hand3 tol du dv dw = true <-> Rdefinitions.Rle tol (rh_value3 du dv dw).
+Proof. exact @right_hand3_spec. Qed.
+Print Assumptions C17_right_hand3_spec.
+
+Theorem C17_right_hand2_spec :
+  forall (tol : Rdefinitions.RbaseSymbolsImpl.R) (du dv : list Rdefinitions.RbaseSymbolsImpl.R),
+         Rdefinitions.RbaseSymbolsImpl.Rlt (Rdefinitions.IZR 0) (dot2 du du) ->
+         Rdefinitions.RbaseSymbolsImpl.Rlt (Rdefinitions.IZR 0) (dot2 dv dv) ->
+         right_hand2 tol du dv = true <-> Rdefinitions.Rle tol (rh_value2 du dv).
+Proof. exact @right_hand2_spec. Qed.
+Print Assumptions C17_right_hand2_spec.
+
+Theorem C17_reoriented_handedness3 :
+  forall (tol : Rdefinitions.RbaseSymbolsImpl.R) (o : orient) (du dv dw : list Rdefinitions.RbaseSymbolsImpl.R),
+         Rdefinitions.RbaseSymbolsImpl.Rlt (Rdefinitions.IZR 0) tol ->
+         signed_perm 3 o ->
+         Rdefinitions.Rle tol (rh_value3 du dv dw) ->
+         let ds := oapply o [du; dv; dw] in
+         let val' := rh_value3 (nth 0 ds []) (nth 1 ds []) (nth 2 ds []) in
+         (oparity o = false -> val' = rh_value3 du dv dw /\ Rdefinitions.Rle tol val') /\
+         (oparity o = true ->
+          val' = Rdefinitions.RbaseSymbolsImpl.Ropp (rh_value3 du dv dw) /\
+          Rdefinitions.Rle val' (Rdefinitions.RbaseSymbolsImpl.Ropp tol) /\ ~ Rdefinitions.Rle tol val').
+Proof. exact @reoriented_handedness3. Qed.
+Print Assumptions C17_reoriented_handedness3.
+
+Theorem C17_reoriented_handedness2 :
+  forall (tol : Rdefinitions.RbaseSymbolsImpl.R) (o : orient) (du dv : list Rdefinitions.RbaseSymbolsImpl.R),
+         Rdefinitions.RbaseSymbolsImpl.Rlt (Rdefinitions.IZR 0) tol ->
+         signed_perm 2 o ->
+         Rdefinitions.Rle tol (rh_value2 du dv) ->
+         let ds := oapply o [du; dv] in
+         let val' := rh_value2 (nth 0 ds []) (nth 1 ds []) in
+         (oparity o = false -> val' = rh_value2 du dv /\ Rdefinitions.Rle tol val') /\
+         (oparity o = true ->
+          val' = Rdefinitions.RbaseSymbolsImpl.Ropp (rh_value2 du dv) /\
+          Rdefinitions.Rle val' (Rdefinitions.RbaseSymbolsImpl.Ropp tol) /\ ~ Rdefinitions.Rle tol val').
+Proof. exact @reoriented_handedness2. Qed.
+Print Assumptions C17_reoriented_handedness2.
+
+Theorem C17_right_hand3_reoriented :
+  forall (tol : Rdefinitions.RbaseSymbolsImpl.R) (o : orient) (du dv dw : list Rdefinitions.RbaseSymbolsImpl.R),
+         Rdefinitions.RbaseSymbolsImpl.Rlt (Rdefinitions.IZR 0) tol ->
+         signed_perm 3 o ->
+         right_hand3 tol du dv dw = true ->
+         let ds := oapply o [du; dv; dw] in
+         right_hand3 tol (nth 0 ds []) (nth 1 ds []) (nth 2 ds []) = negb (oparity o).
+Proof. exact @right_hand3_reoriented. Qed.
+Print Assumptions C17_right_hand3_reoriented.
+
+Theorem C17_right_hand2_reoriented :
+  forall (tol : Rdefinitions.RbaseSymbolsImpl.R) (o : orient) (du dv : list Rdefinitions.RbaseSymbolsImpl.R),
+         Rdefinitions.RbaseSymbolsImpl.Rlt (Rdefinitions.IZR 0) tol ->
+         signed_perm 2 o ->
+         right_hand2 tol du dv = true ->
+         let ds := oapply o [du; dv] in right_hand2 tol (nth 0 ds []) (nth 1 ds []) = negb (oparity o).
+Proof. exact @right_hand2_reoriented. Qed.
+Print Assumptions C17_right_hand2_reoriented.
+
+Theorem C17_swap_midpoint_partials :
+  forall (tol : Rdefinitions.RbaseSymbolsImpl.R) (o : obj Rdefinitions.RbaseSymbolsImpl.R) 
+           (d1 d2 : nat) (ds : list (list Rdefinitions.RbaseSymbolsImpl.R)),
+         Rdefinitions.RbaseSymbolsImpl.Rlt (Rdefinitions.IZR 0) tol ->
+         ObjEval.wf_obj_R tol o ->
+         d1 <> d2 ->
+         d1 < length (o_bases o) ->
+         d2 < length (o_bases o) ->
+         let o' := Reparam.obj_swap o d1 d2 in
+         obj_midpoint o' = Reparam.swap_idx (Rdefinitions.IZR 0) (obj_midpoint o) d1 d2 /\
+         (is_partials (o_dim o) (evc tol o) (obj_midpoint o) ds ->
+          is_partials (o_dim o) (evc tol o') (obj_midpoint o') (step_apply (RSwap d1 d2) ds)).
+Proof. exact @swap_midpoint_partials. Qed.
+Print Assumptions C17_swap_midpoint_partials.
+
+Theorem C17_reverse_midpoint_partials :
+  forall (tol : Rdefinitions.RbaseSymbolsImpl.R) (o : obj Rdefinitions.RbaseSymbolsImpl.R) 
+           (d : nat) (ds : list (list Rdefinitions.RbaseSymbolsImpl.R)),
+         Rdefinitions.RbaseSymbolsImpl.Rlt (Rdefinitions.IZR 0) tol ->
+         ObjEval.wf_obj_R tol o ->
+         d < length (o_bases o) ->
+         let bd := nth d (o_bases o) ObjEval.dflt_basis in
+         b_per1 bd = 0 ->
+         (forall v : Rdefinitions.RbaseSymbolsImpl.R,
+          In v (b_knots bd) ->
+          v = b_start bd \/
+          v = b_end bd \/ Rdefinitions.RbaseSymbolsImpl.Rlt tol (Rbasic_fun.Rabs (Rdefinitions.Rminus v (mid_of bd)))) ->
+         let o' := Reparam.obj_reverse o d in
+         obj_midpoint o' = obj_midpoint o /\
+         (is_partials (o_dim o) (evc tol o) (obj_midpoint o) ds ->
+          is_partials (o_dim o) (evc tol o') (obj_midpoint o') (step_apply (RRev d) ds)).
+Proof. exact @reverse_midpoint_partials. Qed.
+Print Assumptions C17_reverse_midpoint_partials.
+
+Theorem C17_step_flips_handedness3 :
+  forall (tol htol : Rdefinitions.RbaseSymbolsImpl.R) (o : obj Rdefinitions.RbaseSymbolsImpl.R) 
+           (s : rstep) (du dv dw : list Rdefinitions.RbaseSymbolsImpl.R),
+         Rdefinitions.RbaseSymbolsImpl.Rlt (Rdefinitions.IZR 0) tol ->
+         Rdefinitions.RbaseSymbolsImpl.Rlt (Rdefinitions.IZR 0) htol ->
+         ObjEval.wf_obj_R tol o ->
+         length (o_bases o) = 3 ->
+         o_dim o = 3 ->
+         valid_step 3 s ->
+         step_ok tol o s ->
+         is_partials 3 (evc tol o) (obj_midpoint o) [du; dv; dw] ->
+         Rdefinitions.Rle htol (rh_value3 du dv dw) ->
+         let o' := obj_step o s in
+         let ds' := step_apply s [du; dv; dw] in
+         is_partials 3 (evc tol o') (obj_midpoint o') ds' /\
+         rh_value3 (nth 0 ds' []) (nth 1 ds' []) (nth 2 ds' []) =
+         Rdefinitions.RbaseSymbolsImpl.Ropp (rh_value3 du dv dw) /\
+         ~ Rdefinitions.Rle htol (rh_value3 (nth 0 ds' []) (nth 1 ds' []) (nth 2 ds' [])).
+Proof. exact @step_flips_handedness3. Qed.
+Print Assumptions C17_step_flips_handedness3.
+
+Theorem C17_step_flips_handedness2 :
+  forall (tol htol : Rdefinitions.RbaseSymbolsImpl.R) (o : obj Rdefinitions.RbaseSymbolsImpl.R) 
+           (s : rstep) (du dv : list Rdefinitions.RbaseSymbolsImpl.R),
+         Rdefinitions.RbaseSymbolsImpl.Rlt (Rdefinitions.IZR 0) tol ->
+         Rdefinitions.RbaseSymbolsImpl.Rlt (Rdefinitions.IZR 0) htol ->
+         ObjEval.wf_obj_R tol o ->
+         length (o_bases o) = 2 ->
+         o_dim o = 2 ->
+         valid_step 2 s ->
+         step_ok tol o s ->
+         is_partials 2 (evc tol o) (obj_midpoint o) [du; dv] ->
+         Rdefinitions.Rle htol (rh_value2 du dv) ->
+         let o' := obj_step o s in
+         let ds' := step_apply s [du; dv] in
+         is_partials 2 (evc tol o') (obj_midpoint o') ds' /\
+         rh_value2 (nth 0 ds' []) (nth 1 ds' []) = Rdefinitions.RbaseSymbolsImpl.Ropp (rh_value2 du dv) /\
+         ~ Rdefinitions.Rle htol (rh_value2 (nth 0 ds' []) (nth 1 ds' [])).
+Proof. exact @step_flips_handedness2. Qed.
+Print Assumptions C17_step_flips_handedness2.
+
+Theorem C17_cube_reorientations :
+  forall o : orient,
+         signed_perm 3 o ->
+         let ds := oapply o [e1; e2; e3] in
+         let val' := rh_value3 (nth 0 ds []) (nth 1 ds []) (nth 2 ds []) in
+         (oparity o = false ->
+          val' = Rdefinitions.IZR 1 /\
+          Rdefinitions.Rle (Rdefinitions.Rdiv (Rdefinitions.IZR 1) (Rdefinitions.IZR 1000)) val') /\
+         (oparity o = true ->
+          val' = Rdefinitions.IZR (-1) /\
+          ~ Rdefinitions.Rle (Rdefinitions.Rdiv (Rdefinitions.IZR 1) (Rdefinitions.IZR 1000)) val').
+Proof. exact @cube_reorientations. Qed.
+Print Assumptions C17_cube_reorientations.
+
+Theorem C17_cube_executable_Q :
+  right_hand3 0.001%Q q1 q2 q3 = true /\
+         forallb
+           (fun o : orient =>
+            let ds := oapply o [q1; q2; q3] in
+            eqb (right_hand3 0.001%Q (nth 0 ds []) (nth 1 ds []) (nth 2 ds [])) (negb (oparity o))) A3 = true /\
+         forallb
+           (fun o : orient =>
+            let ds := oapply o [[1%Q; 0%Q]; [0%Q; 1%Q]] in
+            eqb (right_hand2 0.001%Q (nth 0 ds []) (nth 1 ds [])) (negb (oparity o))) A2 = true.
+Proof. exact @cube_executable_Q. Qed.
+Print Assumptions C17_cube_executable_Q.
 
